@@ -348,6 +348,53 @@ def eq(res):
         if f1 != f2 or not (back == obj) or not (obj == cls(5)):
             res.violation(f"C04/reassigned-number/{kind}", f"{kind}(1) with .{attr} set to 5 prints as {obj} and writes {f1.as_integer:#x}; "
                           f"{kind}(5) writes {f2.as_integer:#x}; read back == object: {back == obj}", {"kind": kind})
+    # ... and an object that came out of a frame belongs to its reader: changing it (or an instance object read from a frame)
+    # does not change what the next frame with the same bits reads as
+    from models import addr_ref as R2
+    for kind, attr in (("GearShort", "address"), ("DeviceShort", "address"), ("GearGroup", "group"), ("DeviceGroup", "group")):
+        cls = getattr(address, kind)
+        w = 16 if kind.startswith("Gear") else 24
+        for n in (0, 1, 7, 15):
+            f1 = frame.ForwardFrame(w, 0x010000 if w == 24 else 0)
+            cls(n).add_to_frame(f1)
+            first = address.from_frame(f1)
+            if first is None or not hasattr(first, attr):
+                continue
+            res.evaluations += 1
+            res.hit("decoded_objects_changed")
+            try:
+                setattr(first, attr, (n + 9) % 16)
+            except Exception:
+                continue
+            f2 = frame.ForwardFrame(w, f1.as_integer)
+            second = address.from_frame(f2)
+            want = R2.gear_address(f2.as_integer) if w == 16 else R2.device_address(f2.as_integer)
+            if second is first or R2.describe(second) != want:
+                res.violation(f"C04/decoded-object-shared/{kind}", f"after the {kind} read from frame {f1.as_integer:#x} had its .{attr} "
+                              f"changed, a fresh frame with the same bits reads as {second} (the standard's partition: {want})"
+                              + ("; both reads returned the same object" if second is first else ""), {"kind": kind, "number": n})
+    for ib in (0x00, 0x05, 0x1F, 0x80, 0x9F, 0xC3, 0xDF):
+        f1 = frame.ForwardFrame(24, (0x01 << 16) | (ib << 8) | 0x30)
+        try:
+            first = address.instance_from_frame(f1)
+        except Exception:
+            first = None
+        if first is None:
+            continue
+        for attr in ("value", "group", "type", "number"):
+            if hasattr(first, attr) and type(getattr(first, attr)) is int:
+                res.evaluations += 1
+                res.hit("decoded_objects_changed")
+                try:
+                    setattr(first, attr, (getattr(first, attr) + 3) % 32)
+                except Exception:
+                    continue
+                second = address.instance_from_frame(frame.ForwardFrame(24, f1.as_integer))
+                if second is first or R2.describe(second) != R2.instance(ib):
+                    res.violation("C04/decoded-object-shared/instance", f"after the instance object read from byte {ib:#04x} had its "
+                                  f".{attr} changed, a fresh frame with the same byte reads as {second} "
+                                  f"(the standard's partition: {R2.instance(ib)})", {"byte": ib})
+                break
     res.sample({"eq_pairs": len(a1) * len(a2), "example": [list(d1[0]), list(d1[70])]})
 
 
